@@ -273,3 +273,73 @@ func HarnessC01_Chunked() {
 	}
 	vReach("chunked")
 }
+
+// HarnessC01_Duplex: both endpoints read and write; the chunk size is a setting of each
+// direction. A and B each optionally announce a chunk size (any value) and write a message;
+// each then reads what the other sent, writes a second message and reads the other's second
+// message. Every message arrives as written.
+func HarnessC01_Duplex() {
+	da, db := newDuplex(), newDuplex()
+	a, b := NewProtocol(da), NewProtocol(db)
+	type side struct {
+		p    *Protocol
+		d    *duplex
+		sent []sentMsg
+	}
+	sa, sb := &side{p: a, d: da}, &side{p: b, d: db}
+	announce := func(s *side) {
+		if vChoice(2) == 1 {
+			return
+		}
+		cs := vU32()
+		vAssume(vAnd(cs >= 1, cs <= 0x7fffffff))
+		pkt := NewSetChunkSize()
+		pkt.ChunkSize = cs
+		err := s.p.WritePacket(pkt, 0)
+		vAssert(err == nil, "WritePacket(SetChunkSize) succeeds")
+		s.sent = append(s.sent, sentMsg{mt: MessageTypeSetChunkSize, payload: []byte{byte(cs >> 24), byte(cs >> 16), byte(cs >> 8), byte(cs)}})
+	}
+	write := func(s *side, n int) {
+		m := genMessageMax(false, 1)
+		m.Payload = vBytes(n)
+		s.sent = append(s.sent, sentMsg{mt: m.MessageType, sid: m.streamID, ts: m.Timestamp, payload: append([]byte(nil), m.Payload...)})
+		vAssert(s.p.WriteMessage(m) == nil, "WriteMessage succeeds on a working transport")
+	}
+	read := func(s, from *side, label string) bool {
+		s.d.in.data = from.d.out.data
+		for _, w := range from.sent {
+			m, err := s.p.ReadMessage()
+			vAssert(err == nil, label)
+			if err != nil {
+				return false
+			}
+			vAssert(vAnd(m.MessageType == w.mt, vAnd(m.streamID == w.sid, m.Timestamp == w.ts)), "type, stream id and timestamp identical")
+			vAssert(len(m.Payload) == len(w.payload), "payload length identical")
+			if len(m.Payload) == len(w.payload) {
+				vAssert(vEqBytes(m.Payload, w.payload), "payload bytes identical")
+			}
+		}
+		from.sent = nil
+		return true
+	}
+	announce(sa)
+	write(sa, 3)
+	announce(sb)
+	write(sb, 3)
+	if !read(sa, sb, "A reads what B wrote, whatever chunk size A announced for its own direction") {
+		return
+	}
+	if !read(sb, sa, "B reads what A wrote, whatever chunk size B announced for its own direction") {
+		return
+	}
+	// second round: each side has now seen the other's announcement
+	write(sa, 2)
+	write(sb, 2)
+	if !read(sa, sb, "A reads B's second message") {
+		return
+	}
+	if !read(sb, sa, "B reads A's second message") {
+		return
+	}
+	vReach("duplex")
+}
